@@ -59,12 +59,16 @@ func ruleST1(c *Ctx) {
 	for _, name := range []string{"readEvents", "appendEvents", "replaceEventsAtomically", "appendEventsAtomically", "writeEventsFile", "hasUnterminatedTail"} {
 		if f := c.ErgoFn(name); f != nil {
 			storage[f] = true
+			// ... and the private helpers a storage function is split into (they work on the path it was handed)
+			for _, g := range c.unitOf(f) {
+				storage[g] = true
+			}
 		}
 	}
 	ens := c.F.Anchors["ensureFileExists"]
 	cnt := 0
 	for _, fn := range c.Fns {
-		if storage[Outermost(fn)] || fn == c.F.Anchors["loadGraph"] {
+		if storage[Outermost(fn)] || fn == c.F.Anchors["loadGraph"] || c.loaderKind(Outermost(fn)) != "" {
 			continue
 		}
 		for _, call := range callsIn(fn) {
@@ -73,7 +77,7 @@ func ruleST1(c *Ctx) {
 				continue
 			}
 			isEns := cal == ens
-			if !storage[cal] && !isEns {
+			if !storage[cal] && !isEns && c.loaderKind(cal) != "path" {
 				continue
 			}
 			a0 := call.Common().Args[0]
@@ -95,7 +99,7 @@ func ruleST1(c *Ctx) {
 	if lg := c.F.Anchors["loadGraph"]; lg != nil {
 		ok := false
 		for _, call := range callsIn(lg) {
-			if cal := calleeOf(call.Common()); cal == c.F.Anchors["readEvents"] {
+			if cal := calleeOf(call.Common()); cal == c.F.Anchors["readEvents"] || c.loaderKind(cal) == "path" {
 				if d, isCh := c.chooserDir(call.Common().Args[0], env{}); isCh {
 					if _, isParam := resolve(d).(*ssa.Parameter); isParam {
 						ok = true
@@ -836,9 +840,11 @@ func ruleDT5(c *Ctx) {
 			continue
 		}
 		ce := em.Call.Parent()
-		// the loop index phi starts at len-1 and steps by -1
-		for _, in := range em.Call.Block().Instrs {
-			_ = in
+		// `for _, r := range slices.Backward(task.Results)`: the emission sits in the loop's yield function
+		if it := rangeFuncIterator(ce); it != nil && strings.HasPrefix(calleeFullName(&it.Call), "slices.Backward") && len(it.Call.Args) == 1 {
+			if _, n, ok := fieldLoad(resolve(it.Call.Args[0])); ok && n == "Results" {
+				rev = true
+			}
 		}
 		eachInstr(ce, func(r instrRef) {
 			ph, ok := r.In.(*ssa.Phi)
@@ -1514,4 +1520,27 @@ func ruleDT7(c *Ctx) {
 	if len(cnt) == 0 {
 		c.bad(fn, "effects", c.FnPos(re), "no replay effects found")
 	}
+}
+
+// rangeFuncIterator: yield is the synthetic body function of a range-over-func loop; returns the call that produced the
+// iterator being ranged over (slices.Backward(x), maps.Keys(m), ...), or nil.
+func rangeFuncIterator(yield *ssa.Function) *ssa.Call {
+	if yield == nil || yield.Parent() == nil || !strings.HasPrefix(yield.Synthetic, "range-over-func") {
+		return nil
+	}
+	var found *ssa.Call
+	eachInstr(yield.Parent(), func(r instrRef) {
+		call, ok := r.In.(ssa.CallInstruction)
+		if !ok || found != nil {
+			return
+		}
+		for _, a := range call.Common().Args {
+			if mc, ok := a.(*ssa.MakeClosure); ok && mc.Fn == ssa.Value(yield) {
+				if it, ok := resolve(call.Common().Value).(*ssa.Call); ok {
+					found = it
+				}
+			}
+		}
+	})
+	return found
 }
